@@ -96,9 +96,9 @@ def run(tier):
                 else:
                     g = StmtGen(r)
                     local = r.random() < 0.35       # every variable a local of one function
-                    prog = g.build(n_items=r.randint(10, 22), d=2, nest=r.randint(1, 3), n_funcs=0 if local else r.randint(0, 2))
+                    prog = g.build(n_items=r.randint(10, 22), d=2, nest=r.randint(1, 3), n_funcs=r.randint(0, 2), pure_funcs=local)
                     if local:
-                        wrap_in_function(prog)
+                        wrap_in_function(prog, allow_funcs=True)
                 prog.items += numeric_extras(r)
                 d = os.path.join(sc.path, "g%d" % x)
                 os.makedirs(d)
